@@ -5,7 +5,7 @@
 # and undoes it straight afterwards.
 set -u
 P=$1; K=$2; SKIP=${3:-}
-SRC=/tmp/seed/$P/_out/$K
+SRC=${SEED_SRC:-/tmp/seed/$P/_out/$K}
 DST=/verif/seeded/$P-$K
 mkdir -p $DST
 cp $SRC/patch.diff $SRC/demo.diff $SRC/meta.json $DST/ 2>/dev/null
